@@ -54,7 +54,7 @@ def run(replay=None):
         for alg in ([1, 2, 0] if k % 2 == 0 else [1, 2]):
             workers = rng.choice([1, 2, 3, 4, 8, 16])
             mf = rng.choice([0.06, 0.045, 0.03] if alg else [0.08, 0.05])
-            maxerr = rng.choice([1e-8, 1e-8, 1e-3])
+            maxerr = rng.choice([1e-8, -1.0, -1.0, 1e-3])
             p.qs.append((alg, workers, mf, maxerr, p.ncmd + 1))
             p.emit(f"mesh {p.root} {alg} {workers} {f2h(mf)} {box} {f2h(maxerr)} {rng.randrange(1 << 30)}")
         progs.append(p)
@@ -88,12 +88,27 @@ def run(replay=None):
                               ("bad_index", "a triangle index does not refer to a vertex"),
                               ("unreferenced", "a vertex is referenced by no triangle")):
                 if int(f[key]):
-                    ck.violation(f"{key}:{name}", what, {"program": p.text(), "command": p.lines[cmd - 1], "detail": out[0]})
+                    # the simplex mesher with cell collapsing enabled (max_err >= 0) is a recorded finding
+                    # (known_findings.txt, corpus c03_simplex_collapse_hole.txt): its own key, so that holes of the
+                    # simplex mesher WITHOUT collapsing, and of the other meshers, are still reported
+                    k2 = f"{key}:{name}" + (":collapse" if key == "unbalanced" and alg == 1 and maxerr >= 0 else "")
+                    ck.violation(k2, what, {"program": p.text(), "command": p.lines[cmd - 1], "detail": out[0]})
             if alg != 0 and int(f["nonmanifold"]):
                 ck.violation(f"nonmanifold:{name}", "an edge is used more than once in one direction (simplex / hybrid must be edge-manifold)",
                              {"program": p.text(), "command": p.lines[cmd - 1], "detail": out[0]})
             if len(samples) < 3:
                 samples.append({"command": p.lines[cmd - 1], "answer": out[0]})
+    # the recorded finding: the simplex mesher leaves holes when it collapses cells (and none when it does not)
+    corpus = os.path.join(common.VERIF, "check", "corpus", "c03_simplex_collapse_hole.txt")
+    rc, cout, _ = common.run_prog(exe_h, open(corpus).read(), timeout=300)
+    cl = [l for l in cout.splitlines() if " MA " in l]
+    if len(cl) == 2:
+        if " unbalanced=0 " not in cl[0]:
+            ck.violation("unbalanced:simplex:collapse", "the simplex mesher with cell collapsing leaves unpaired edges on the recorded input",
+                         {"program": open(corpus).read(), "detail": cl[0]})
+        if " unbalanced=0 " not in cl[1]:
+            ck.violation("unbalanced:simplex", "the simplex mesher WITHOUT cell collapsing leaves unpaired edges on the recorded input",
+                         {"program": open(corpus).read(), "detail": cl[1]})
     # ---- uniform-grid dual contouring: the implementation's mesh against Render/DCGrid.v ----
     ok_g, log_g = common.build_driver(**common.DRIVERS["gdriver"])
     gprogs = []
